@@ -33,9 +33,9 @@ ASSUMPTIONS = [
     'upgrades whose execution fails are skipped (C01 matter)',
 ]
 FLOORS = {'quick': {'nontrivial': 8, 'previews_compared': 10,
-                    'processes': 80},
+                    'processes': 80, 'twodb_projects': 4},
           'thorough': {'nontrivial': 120, 'previews_compared': 150,
-                       'processes': 1200}}
+                       'processes': 1200, 'twodb_projects': 40}}
 SIZES = {'quick': 24, 'thorough': 280}
 TIMEOUT = {'quick': 170, 'thorough': 1700}
 SEEDS = ('0', '1', '2', '3', '12345')
